@@ -24,7 +24,7 @@ class Obligation:
     def __init__(self, name, fn, *, code=(), bounds='', native='auto', claim_doc='',
                  max_paths=20000, query_timeout_ms=10000, wall_s=150, hard_s=None,
                  concretize_cap=64, tiers=('quick', 'thorough'), stop_on_violation=True, oneshot=True,
-                 shims=(), outside='', min_paths=1, kind='symbolic'):
+                 shims=(), outside='', min_paths=1, kind='symbolic', shards=1):
         self.name = name
         self.fn = fn
         self.code = list(code)
@@ -43,6 +43,9 @@ class Obligation:
         self.outside = outside
         self.min_paths = min_paths
         self.kind = kind
+        self.shards = shards
+        self.init_stack = None
+        self.split = None
 
 
 # ---------------------------------------------------------------------------
@@ -124,17 +127,18 @@ def _explore(ob, prop, known, conn):
 
         core.Ctx.claim = claim
         try:
-            ex.run(ob.fn)
+            ex.run(ob.fn, initial_stack=ob.init_stack, bfs_until=ob.split)
         finally:
             core.Ctx.claim = orig_claim
         st = ex.stats
         res.update({
-            'status': 'done', 'stats': st.as_dict(), 'exhausted': ex.exhausted and not ex.cap_hit,
+            'status': 'done', 'stats': st.as_dict(), 'exhausted': (ex.exhausted or ex.frontier is not None) and not ex.cap_hit,
             'violations': [_ser(v) for v in ex.violations],
             'known_hits': {k: _ser(v) for k, v in ex.known_hits.items()},
             'samples': ex.samples, 'claims': ex.claim_names,
             'axioms': sorted(ex.axioms), 'path_outcomes': ex.path_outcomes,
             'source_hashes': dict(instrument.SOURCE_HASHES),
+            'frontier': ex.frontier,
         })
     except BaseException as e:  # noqa
         res['status'] = 'error'
@@ -174,9 +178,15 @@ def _deser(o):
 def run_pool(obs, prop, known, jobs):
     """run obligations in forked children, <= jobs at a time, with hard kill"""
     ctx = mp.get_context('fork')
-    pending = list(obs)
-    running = []
     results = {}
+    pending = []
+    for ob in obs:
+        pre = getattr(ob, 'precomputed', None)
+        if pre is not None:
+            results[ob.name] = pre
+        else:
+            pending.append(ob)
+    running = []
     while pending or running:
         while pending and len(running) < jobs:
             ob = pending.pop(0)
@@ -207,6 +217,41 @@ def run_pool(obs, prop, known, jobs):
                 still.append((ob, p, pc, t0))
         running = still
     return results
+
+
+def expand_shards(obs, prop, known, jobs):
+    """obligations with shards=k: a splitter child explores breadth-first
+    until the frontier holds >= 6k prefixes; the frontier is then dealt to k
+    shard obligations (each explores its prefixes' subtrees depth-first).  The
+    paths finished by the splitter are reported under '<name>#split'."""
+    import copy
+    out = []
+    splitters = []
+    for ob in obs:
+        if ob.shards <= 1:
+            out.append(ob)
+            continue
+        sp = copy.copy(ob)
+        sp.name = ob.name + '#split'
+        sp.split = 6 * ob.shards
+        splitters.append((ob, sp))
+    if not splitters:
+        return out
+    res = run_pool([sp for _, sp in splitters], prop, known, jobs)
+    for ob, sp in splitters:
+        r = res[sp.name]
+        fr = r.get('frontier') if r.get('status') == 'done' else None
+        sp.precomputed = r
+        out.append(sp)
+        if not fr:
+            continue
+        for i in range(ob.shards):
+            sh = copy.copy(ob)
+            sh.name = '%s#%d/%d' % (ob.name, i + 1, ob.shards)
+            sh.init_stack = fr[i::ob.shards]
+            if sh.init_stack:
+                out.append(sh)
+    return out
 
 
 # ---------------------------------------------------------------------------
@@ -292,6 +337,7 @@ def main(argv=None):
     if args.only:
         obs = [o for o in obs if args.only in o.name]
     known, fixed = load_known(prop)
+    obs = expand_shards(obs, prop, known, args.jobs)
     import shutil
     shutil.rmtree(os.path.join(VERIF, 'replays', prop), ignore_errors=True)
     results = run_pool(obs, prop, known, args.jobs)
@@ -366,9 +412,9 @@ def main(argv=None):
                 e.setdefault('violations', []).append({'claim': v['claim'], 'replay': path, 'inputs': v['inputs']})
             else:
                 harness_errors.append('%s: counterexample for claim %s does not reproduce natively (%s)\n%s' % (ob.name, v['claim'], path, out[-800:]))
-        if st['claims'] == 0 and not st['reasons'] and not r['violations']:
+        if st['claims'] == 0 and not st['reasons'] and not r['violations'] and not ob.name.endswith('#split'):
             harness_errors.append('%s: vacuous -- no path reached a claim (paths=%d, outcomes=%r)' % (ob.name, st['paths'], r['path_outcomes']))
-        if st['paths'] < ob.min_paths:
+        if st['paths'] < ob.min_paths and not ob.name.endswith('#split'):
             harness_errors.append('%s: only %d paths explored, expected >= %d' % (ob.name, st['paths'], ob.min_paths))
         concl = (st['claims'] > 0 and st['discharged'] == st['claims'] and r['exhausted']
                  and st['inconclusive'] == 0)
